@@ -133,18 +133,37 @@ def afterCommaMode (s : St) : Mode :=
 def stepToken (s : St) (b : UInt8) : Except Err St :=
   let ri := s.ri + 1
   if T.act s.mode 114 = .tokenOk then          -- 'r': true
-    if [116, 114, 117, 101].getD ri 0 ≠ b then .error (s.err .expTrue)
-    else if 3 ≤ ri then ({ s with ri := ri, mode := .after } : St).add (.bool true)
-    else .ok { s with ri := ri }
+    if [116, 114, 117, 101].getD ri 0 = b then
+      if 3 ≤ ri then ({ s with ri := ri, mode := .after } : St).add (.bool true)
+      else .ok { s with ri := ri }
+    else .error (s.err .expTrue)
   else if T.act s.mode 97 = .tokenOk then      -- 'a': false
-    if [102, 97, 108, 115, 101].getD ri 0 ≠ b then .error (s.err .expFalse)
-    else if 4 ≤ ri then ({ s with ri := ri, mode := .after } : St).add (.bool false)
-    else .ok { s with ri := ri }
+    if [102, 97, 108, 115, 101].getD ri 0 = b then
+      if 4 ≤ ri then ({ s with ri := ri, mode := .after } : St).add (.bool false)
+      else .ok { s with ri := ri }
+    else .error (s.err .expFalse)
   else if T.act s.mode 117 = .tokenOk && T.act s.mode 108 = .tokenOk then   -- 'u','l': null
-    if [110, 117, 108, 108].getD ri 0 ≠ b then .error (s.err .expNull)
-    else if 3 ≤ ri then ({ s with ri := ri, mode := .after } : St).add .null
-    else .ok { s with ri := ri }
+    if [110, 117, 108, 108].getD ri 0 = b then
+      if 3 ≤ ri then ({ s with ri := ri, mode := .after } : St).add .null
+      else .ok { s with ri := ri }
+    else .error (s.err .expNull)
   else .ok s
+
+/-- `if 256 < len(p.mode) && p.mode[256] == 'n' { p.add(p.num.AsNum()) }` -/
+def St.flushNum (s : St) : Except Err St :=
+  if T.fin s.mode = .n then s.addNum else .ok s
+
+/-- close-object tail: pop the map and add it to what is below -/
+def St.popObj (s : St) (rest : List Bool) : Except Err St :=
+  match s.stack with
+  | [] => .error (s.err (.fault "index out of range"))
+  | top :: below => ({ s with starts := rest, stack := below } : St).add top.toJV
+
+/-- close-array tail: copy the elements above the array's placeholder and add the slice below it -/
+def St.popArr (s : St) (rest : List Bool) : Except Err St :=
+  match splitAtMark s.stack [] with
+  | none => .error (s.err (.fault "slice bounds out of range"))
+  | some (elems, below) => ({ s with starts := rest, stack := below } : St).add (.arr elems)
 
 /-- the `switch p.mode[b]` of `parseBuffer`; the Boolean is "the case ends with `continue`" -/
 def stepAct (s : St) (b : UInt8) : Except Err (St × Bool) :=
@@ -156,13 +175,11 @@ def stepAct (s : St) (b : UInt8) : Except Err (St × Bool) :=
   | .keyQuote => .ok ({ s with tmp := [], mode := .string, nextMode := .colon }, true)
   | .afterComma => .ok ({ s with mode := afterCommaMode s }, true)
   | .valQuote => .ok ({ s with tmp := [], mode := .string, nextMode := .after }, true)
-  | .numComma =>
-    match s.addNum with
-    | .error e => .error e
-    | .ok s' =>
-      match s'.starts with
-      | [] => .error (s'.err .comma)
-      | _ => .ok ({ s' with mode := afterCommaMode s' }, false)
+  | .numComma => do
+    let s' ← s.addNum
+    match s'.starts with
+    | [] => .error (s'.err .comma)
+    | _ :: _ => pure ({ s' with mode := afterCommaMode s' }, false)
   | .strSlash => .ok ({ s with mode := .esc }, true)
   | .escOk => .ok ({ s with tmp := T.escByte b :: s.tmp, mode := .string }, true)
   | .openObject => .ok ({ s with starts := false :: s.starts, mode := .key1, stack := .obj [] :: s.stack }, true)
@@ -170,17 +187,10 @@ def stepAct (s : St) (b : UInt8) : Except Err (St × Bool) :=
     match s.starts with
     | false :: rest =>
       if T.fin s.mode = .v then .error (s.err .objClose)
-      else
-        let r := if T.fin s.mode = .n then s.addNum else .ok s
-        match r with
-        | .error e => .error e
-        | .ok s1 =>
-          match s1.stack with
-          | [] => .error (s1.err (.fault "index out of range"))
-          | top :: below =>
-            match ({ s1 with starts := rest, stack := below } : St).add top.toJV with
-            | .error e => .error e
-            | .ok s2 => .ok ({ s2 with mode := .after }, false)
+      else do
+        let s1 ← s.flushNum T
+        let s2 ← s1.popObj rest
+        pure ({ s2 with mode := .after }, false)
     | _ => .error (s.err .objClose)
   | .val0 => .ok ({ s with mode := .zero, num := s.num.reset }, false)
   | .valDigit =>
@@ -190,68 +200,57 @@ def stepAct (s : St) (b : UInt8) : Except Err (St × Bool) :=
   | .openArray => .ok ({ s with starts := true :: s.starts, stack := .arrMark :: s.stack, mode := .value }, true)
   | .closeArray =>
     match s.starts with
-    | true :: rest =>
-      let r := if T.fin s.mode = .n then s.addNum else .ok s
-      match r with
-      | .error e => .error e
-      | .ok s1 =>
-        match splitAtMark s1.stack [] with
-        | none => .error (s1.err (.fault "slice bounds out of range"))
-        | some (elems, below) =>
-          match ({ s1 with starts := rest, stack := below } : St).add (.arr elems) with
-          | .error e => .error e
-          | .ok s2 => .ok ({ s2 with mode := .after }, false)
+    | true :: rest => do
+      let s1 ← s.flushNum T
+      let s2 ← s1.popArr rest
+      pure ({ s2 with mode := .after }, false)
     | _ => .error (s.err .arrClose)
   | .valNull => .ok ({ s with mode := .null, ri := 0 }, false)
   | .valTrue => .ok ({ s with mode := .true_, ri := 0 }, false)
   | .valFalse => .ok ({ s with mode := .false_, ri := 0 }, false)
   | .numDot =>
-    if 0 < s.num.big.length then .ok ({ s with num := { s.num with big := s.num.big ++ [b] }, mode := .dot }, true)
-    else .ok ({ s with mode := .dot }, false)
+    .ok ({ s with num := if 0 < s.num.big.length then { s.num with big := s.num.big ++ [b] } else s.num, mode := .dot },
+      decide (0 < s.num.big.length))
   | .numFrac => .ok ({ s with num := s.num.addFrac b, mode := .frac }, false)
   | .fracE =>
-    if 0 < s.num.big.length then .ok ({ s with num := { s.num with big := s.num.big ++ [b] }, mode := .expSign }, true)
-    else .ok ({ s with mode := .expSign }, true)
+    .ok ({ s with num := if 0 < s.num.big.length then { s.num with big := s.num.big ++ [b] } else s.num, mode := .expSign }, true)
   | .strQuote =>
     if T.act s.nextMode 58 = .colonColon then
       .ok ({ s with mode := s.nextMode, stack := .key s.tmp.reverse :: s.stack }, false)
-    else
-      match ({ s with mode := s.nextMode } : St).add (.str s.tmp.reverse) with
-      | .error e => .error e
-      | .ok s' => .ok (s', false)
+    else do
+      let s' ← ({ s with mode := s.nextMode } : St).add (.str s.tmp.reverse)
+      pure (s', false)
   | .numZero => .ok ({ s with mode := .zero }, false)
   | .numDigit =>
     -- Inside the fast loop of the parsers (digits that follow the first one in the same read buffer)
     -- the switch to text happens as soon as `BigLimit <= I`, one digit earlier than `AddDigit`
     -- would: 19-digit integers from 9223372036854775800 up come back as text. The suite pins this
-    -- (known finding C02/C03 int19); the model carries it so that the tie stays exact.
-    if s.inFast then
-      if BigLimit ≤ s.num.i then .ok ({ s with num := s.num.fillBig.addDigit b, inFast := false }, false)
-      else .ok ({ s with num := { s.num with i := s.num.i * 10 + (b - 48).toUInt64 } }, false)
-    else .ok ({ s with num := s.num.addDigit b }, false)
+    -- (known findings C02-int19, C03-int19); the model carries it so that the tie stays exact.
+    .ok ({ s with
+      num := if s.inFast then
+               (if BigLimit ≤ s.num.i then s.num.fillBig.addDigit b
+                else { s.num with i := s.num.i * 10 + (b - 48).toUInt64 })
+             else s.num.addDigit b,
+      inFast := s.inFast && !(BigLimit ≤ s.num.i) }, false)
   | .negDigit => .ok ({ s with num := s.num.addDigit b, mode := .digit }, false)
-  | .numSpc =>
-    match s.addNum with
-    | .error e => .error e
-    | .ok s' => .ok ({ s' with mode := .after }, false)
-  | .numNewline =>
-    match s.addNum with
-    | .error e => .error e
-    | .ok s' => .ok ({ s' with line := s'.line + 1, nl := s'.pos, mode := .after }, false)
+  | .numSpc => do
+    let s' ← s.addNum
+    pure ({ s' with mode := .after }, false)
+  | .numNewline => do
+    let s' ← s.addNum
+    pure ({ s' with line := s'.line + 1, nl := s'.pos, mode := .after }, false)
   | .expSign =>
-    if 0 < s.num.big.length then
-      .ok ({ s with mode := .expZero, num := { s.num with big := s.num.big ++ [b], negExp := s.num.negExp || b = 45 } }, true)
-    else .ok ({ s with mode := .expZero, num := { s.num with negExp := s.num.negExp || b = 45 } }, true)
+    .ok ({ s with mode := .expZero,
+                  num := { s.num with big := if 0 < s.num.big.length then s.num.big ++ [b] else s.num.big,
+                                      negExp := s.num.negExp || b = 45 } }, true)
   | .expDigit => .ok ({ s with num := s.num.addExp b, mode := .exp }, false)
   | .uOk =>
-    let ri := s.ri + 1
-    let rn := s.rn * 16 + hexDigitVal b
-    if ri = 4 then .ok ({ s with ri := ri, rn := rn, tmp := (utf8Enc rn).reverse ++ s.tmp, mode := .string }, true)
-    else .ok ({ s with ri := ri, rn := rn }, true)
-  | .tokenOk =>
-    match stepToken T s b with
-    | .error e => .error e
-    | .ok s' => .ok (s', false)
+    .ok ({ s with ri := s.ri + 1, rn := s.rn * 16 + hexDigitVal b,
+                  tmp := if s.ri + 1 = 4 then (utf8Enc (s.rn * 16 + hexDigitVal b)).reverse ++ s.tmp else s.tmp,
+                  mode := if s.ri + 1 = 4 then .string else s.mode }, true)
+  | .tokenOk => do
+    let s' ← stepToken T s b
+    pure (s', false)
   | .charErr =>
     -- `byteError` picks the message by the mode table
     .error (s.err (match s.mode with
@@ -323,11 +322,14 @@ def bomRuleReader (bs : Bytes) : BomRes :=
   | _ => .keep
 
 /-- the reader entry points top the first read up until four bytes are there when it starts with 0xEF -/
+def topUpAux (acc : Bytes) : List Bytes → List Bytes
+  | [] => [acc]
+  | d :: rest =>
+    if acc.length < 4 && acc.head? = some 0xEF then topUpAux (acc ++ d) rest else acc :: d :: rest
+
 def topUp : List Bytes → List Bytes
-  | c :: d :: rest =>
-    if c.length < 4 && c.head? = some 0xEF then topUp ((c ++ d) :: rest) else c :: d :: rest
-  | cs => cs
-termination_by cs => cs.length
+  | [] => []
+  | c :: cs => topUpAux c cs
 
 /-- the read buffers one after the other; a buffer boundary ends the integer fast loop -/
 def runChunks (s : St) : List Bytes → Except Err St
